@@ -166,6 +166,7 @@ func HarnessC03ParseStructured() {
 	k := 1 + vndChoice(vndParam("K", 3)+1) // up to max+1 members
 	var ms []member
 	hdr := ""
+	dup := false
 	pre := []string{"", " ", "\t "}
 	post := []string{"", "\t", " \t"}
 	for i := 0; i < k; i++ {
@@ -178,7 +179,8 @@ func HarnessC03ParseStructured() {
 		vndAssume(c03RefKey(key))
 		vndAssume(c03RefValue(val))
 		for j := range ms {
-			vndAssume(key != ms[j].Key)
+			// a repeated key (whatever white space surrounds it) makes the header invalid
+			dup = vndOr(dup, key == ms[j].Key)
 		}
 		ms = append(ms, member{key, val})
 		if i > 0 {
@@ -188,6 +190,11 @@ func HarnessC03ParseStructured() {
 		hdr += pre[o] + key + "=" + val + post[o]
 	}
 	ts, err := ParseTraceState(hdr)
+	if dup {
+		vndReach("duplicate")
+		vndAssert(err != nil, "duplicate-key-rejected")
+		return
+	}
 	if k > maxListMembers {
 		vndReach("too-many")
 		vndAssert(err != nil, "more-than-max-members-rejected")
